@@ -52,7 +52,7 @@ def run_job(job):
     dts = rng.choice([[], [], ['15m'], ['1h'], ['3m'], ['5m', '1h'], ['2h']])
     spec = specgen.random_session(rng, minutes=min(minutes, 2400), nsym=1, tfs=[tf], data_tfs=dts if dts else None,
                                   warmup=rng.choice([0, 240]), fast=False,
-                                  family=rng.choice(['walk', 'gappy', 'lattice', 'trend', 'flatty']))
+                                  family=rng.choice(['walk', 'gappy', 'gappy', 'lattice', 'lattice_gappy', 'trend', 'flatty']))
     if not dts:
         spec['data_routes'] = []
     sc = spec['routes'][0]['script']
@@ -66,6 +66,8 @@ def run_job(job):
     sc['entry_dist'] = wide / 2
     sc['update_kinds'] = [x for x in sc['update_kinds'] if x != 'near_tp'] or ['trail_sl']
     sc['observe'] = 'light'
+    if job['i'] % 2 == 1:
+        sc['decide_on_ohl'] = True     # a strategy that reads open/high/low of its trading candles
     if sc.get('lattice'):
         sc['sl'] = sc['sl'] and max(sc['sl'], 0.03)
         sc['tp'] = sc['tp'] and max(sc['tp'], 0.03)
